@@ -54,7 +54,7 @@ Fixpoint dec_aux (fuel : nat) (n : N) (acc : bytes) : bytes :=
   | S f => let acc' := (48 + n mod 10) :: acc in
            if n / 10 =? 0 then acc' else dec_aux f (n / 10) acc'
   end.
-Definition dec_of_N (n : N) : bytes := dec_aux (S (N.size_nat n)) n [].
+Definition dec_of_N (n : N) : bytes := dec_aux (S (S (N.to_nat (N.log2 n)))) n [].
 
 (* ---- source-derived items (T1, coq/gen/Gen.v) ---- *)
 Definition redacted : bytes := Gen.smtp_redacted_placeholder.      (* "<SMTP auth data redacted>" in cmd *)
